@@ -65,6 +65,10 @@ func (f *failoverStatus) report(ctx context.Context, witness string) *status.Sta
 		if f.timer != nil {
 			f.timer.Stop()
 		}
+		// The witnesses have served their purpose. Forget them so that they
+		// do not count towards a later failover, e.g. of the newly selected
+		// leader, for which a new quorum has to report within the timeout.
+		f.witnesses = make(map[string]struct{})
 		f.mu.Unlock()
 		return f.failover.Failover(ctx)
 	}
